@@ -30,7 +30,7 @@ def build():
     u.take("acmed/src/logs.rs", "HasLogger", "logs")
     u.module("account", "use crate::*;\nuse crate::shims::*;\nuse crate::logs::HasLogger;\nuse crate::acme_common::error::Error;\n"
              "use std::collections::HashMap;\nuse std::time::SystemTime;")
-    u.raw("account", "pub mod contact { use vstd::prelude::*; verus! { pub struct AccountContact { pub opaque: u8 } impl Clone for AccountContact { fn clone(&self) -> (r: Self) ensures r == *self { AccountContact { opaque: self.opaque } } } } }\n", trusted=True)
+    u.raw("account", "pub mod contact { use vstd::prelude::*; verus! { pub struct AccountContact { pub opaque: u8 } impl Clone for AccountContact { fn clone(&self) -> (r: Self) ensures r == *self { AccountContact { opaque: self.opaque } } } #[verifier::external] impl std::fmt::Display for AccountContact { fn fmt(&self, f: &mut std::fmt::Formatter) -> std::fmt::Result { Ok(()) } } } }\n", trusted=True)
     for t in ["ExternalAccount", "AccountKey", "AccountEndpoint", "Account"]:
         u.take(A, t, "account")
     u.stub(A, "impl HasLogger for Account", "account")
